@@ -42,8 +42,8 @@ def check_c02(case, stats):
   data = gen.Data(m['desc'])
   params = E.materialize(name, m['opts'], data, m['aseed'], {'preprocessor': pool})
   est = E.build(name, params)
-  r = call('C02/fit/' + name, est.fit, *E.fit_args(name, data),
-           expect=(RuntimeError,) if 'SDML' in name else ())
+  r = E.fit_call('C02/fit', name, est, E.fit_args(name, data), m['desc'], params,
+                 expect=(RuntimeError,) if 'SDML' in name else ())
   if isinstance(r, Exception):
     raise Discard('SDML RuntimeError (specified outcome)')
   if r is not est:
